@@ -92,7 +92,7 @@ func init() {
 		},
 		Rule: "sequential part: every op sequence over {Ack,Nack,Acked?,Nacked?} of length 0..8 (87381 sequences) on 5 message kinds " +
 			"(NewMessage, Copy of unsettled/acked/nacked, zero value), checked step by step against the 3-state model (exhaustive, counter seq_sequences); " +
-			"concurrent part: batches of 40 histories of 2..16 goroutines x 1..4 ops on one shared message (NewMessage, Copy, zero value, zero value settled by one earlier call) with Gosched injection, each history checked " +
+			"concurrent part: batches of 40 histories of 2..16 goroutines x 1..4 ops on one shared message (NewMessage, Copy, zero value, zero value settled by one earlier call, Copy taken while four goroutines hammer Ack/Nack on the source) with Gosched injection, each history checked " +
 			"with porcupine against the same model. A concurrent case is non-trivial when operations of different goroutines overlapped in logical time and " +
 			"both Ack and Nack were attempted; distinct = distinct (kind, observed history) hashes; a sequential case is non-trivial always, distinct per (kind, block).",
 		Assumptions: []string{
@@ -214,7 +214,7 @@ var c03Model = porcupine.Model{
 
 func c03Conc(e *vlib.Env) vlib.Result {
 	res := vlib.Result{Class: "concurrent"}
-	kinds := []string{"new", "copy-unsettled", "zero", "new", "zero-settled"}
+	kinds := []string{"new", "copy-unsettled", "zero", "new", "zero-settled", "copy-of-busy-source"}
 	distinct := map[string]bool{}
 	overlapping := 0
 	var sample any
@@ -225,6 +225,37 @@ func c03Conc(e *vlib.Env) vlib.Result {
 		// zero-settled: a message built without the constructor is settled by one call first; after that call has
 		// returned, nothing writes the channel fields any more, so readers may run concurrently with further Ack/Nack calls
 		var pre []porcupine.Operation
+		if kind == "copy-of-busy-source" {
+			// the copy is taken while other goroutines are inside Ack/Nack of the source; Copy reads UUID, payload and
+			// metadata only, so this is race-free on the pinned tree, and the copy starts unsettled whatever the source's state
+			src := message.NewMessage("u", []byte("p"))
+			stopH := make(chan struct{})
+			var hw sync.WaitGroup
+			for hgr := 0; hgr < 4; hgr++ {
+				hw.Add(1)
+				go func(hgr int) {
+					defer hw.Done()
+					for i := 0; ; i++ {
+						select {
+						case <-stopH:
+							return
+						default:
+						}
+						if (i+hgr)%2 == 0 {
+							src.Ack()
+						} else {
+							src.Nack()
+						}
+					}
+				}(hgr)
+			}
+			for y := e.R.Intn(20); y > 0; y-- {
+				runtime.Gosched()
+			}
+			m = src.Copy()
+			close(stopH)
+			hw.Wait()
+		}
 		if kind == "zero-settled" {
 			op := e.R.Intn(2)
 			call := vlib.Now()
